@@ -63,6 +63,8 @@ struct Shared {
     gate_only: Mutex<Option<(u64, u64, usize)>>,
     /// `lhold` / `lunhold`: disk loads wait while held
     lholder: foyer_storage::test_utils::Holder,
+    /// `lazygof`: get_or_fetch futures created (registered) but not polled until `joinlazy`
+    lazy: Mutex<Vec<(u64, std::pin::Pin<Box<dyn std::future::Future<Output = String> + Send>>)>>,
     /// `keep`: entry handles held by the "application" until `unkeep`
     kept: Mutex<Vec<Box<dyn std::any::Any + Send>>>,
     /// `bget`: lookups running in the background, joined by `join`
@@ -83,6 +85,7 @@ impl Default for Shared {
             gate_only: Default::default(),
             lholder: Default::default(),
             kept: Default::default(),
+            lazy: Default::default(),
             bg: Default::default(),
         }
     }
@@ -571,6 +574,31 @@ fn run_script(script: &[&str], n: usize) {
                                 tokio::time::sleep(Duration::from_millis(settle)).await;
                             }
                             r
+                        }
+                        "lazygof" => {
+                            // a get_or_fetch whose future is created now (the lookup and the in-flight registration
+                            // happen at creation) but polled only at `joinlazy`; its origin never answers
+                            let k = geti(&kv, "k");
+                            let fut = hh.as_ref().unwrap().get_or_fetch(&k, move || async move {
+                                std::future::pending::<()>().await;
+                                Ok::<_, foyer::Error>(mkval(k, 0, 16))
+                            });
+                            let fut = async move {
+                                match fut.await {
+                                    Ok(e) => format!("hit:{}:{:?}", show(e.value()), e.source()),
+                                    Err(e) => format!("err:{:?}", e.kind()),
+                                }
+                            };
+                            sh.lazy.lock().push((k, Box::pin(fut)));
+                            "ok".into()
+                        }
+                        "joinlazy" => {
+                            let fs: Vec<_> = sh.lazy.lock().drain(..).collect();
+                            let mut out = vec![];
+                            for (k, f) in fs {
+                                out.push(format!("{k}={}", f.await));
+                            }
+                            format!("lazy[{}]", out.join(","))
                         }
                         "rm" => {
                             hh.as_ref().unwrap().remove(&geti(&kv, "k"));
